@@ -48,6 +48,7 @@ func runC15(p *core.Program, r *core.Report) {
 	noAnswerBeforeTheScan(c, "gogu.ToLower", "gogu.ToUpper", "gogu.Capitalize", "gogu.WrapAllRune", "gogu.ReverseStr", "gogu.SplitAtIndex")
 	resultUntouchedAfterTheScan(c, "gogu.ToLower", "gogu.ToUpper", "gogu.Capitalize", "gogu.WrapAllRune", "gogu.ReverseStr", "gogu.SplitAtIndex")
 	hygiene(c, "string.go")
+	noSingledOutValue(c, []string{"string.go"}, nil)
 
 	// ---------------- case mapping
 	type caseSpec struct {
